@@ -91,8 +91,10 @@ def _create_h2(data, meta) -> Histogram2D:
     shape = Histogram2D(binnings).shape
 
     # The rows iterate over the x bins fastest (incl. under/overflow bins on both axes)
-    frequencies = data[:, 1].reshape([b + 2 for b in reversed(shape)]).T
-    frequencies = frequencies[1:-1, 1:-1]
+    all_cells = data[:, 1].reshape([b + 2 for b in reversed(shape)]).T
+    frequencies = all_cells[1:-1, 1:-1]
+    # The border cells hold the weight below / above the bins
+    missed = all_cells.sum() - frequencies.sum()
 
     errors2 = data[:, 2].reshape([b + 2 for b in reversed(shape)]).T
     errors2 = errors2[1:-1, 1:-1]
@@ -102,6 +104,7 @@ def _create_h2(data, meta) -> Histogram2D:
         name=_get(meta, "title"),
         frequencies=frequencies,
         errors2=errors2,
+        missed=missed,
     )
 
     return hist
